@@ -537,7 +537,7 @@ def gen_transpose_case(rng):
     el = rng.choice(["i8", "i32", "i32", "i64"])
     lim = 100 if el == "i8" else 100000
     vals = [[rng.randrange(-lim, lim) for _ in range(c)] for _ in range(r)]
-    return {"transpose": True, "r": r, "c": c, "el": el, "vals": vals, "extra_user": rng.random() < 0.2}
+    return {"transpose": True, "r": r, "c": c, "el": el, "vals": vals, "extra_user": rng.random() < 0.2, "computing": rng.random() < 0.25}
 
 
 def run_transpose_case(case, res):
@@ -551,13 +551,17 @@ def run_transpose_case(case, res):
     r, cc, el, vals = case["r"], case["c"], case["el"], case["vals"]
     dense = "[" + ", ".join("[" + ", ".join(map(str, row)) + "]" for row in vals) + "]"
     extra = f'    "test.op"(%w) {{verif.id = "other"}} : (tensor<{r}x{cc}x{el}>) -> ()\n' if case.get("extra_user") else ""
+    # a transposing generic whose body also computes (here 2 * x) is not a plain transpose: it may only be folded to the computed values
+    computing = bool(case.get("computing"))
+    body_ops = f"      %dbl = arith.addi %x, %x : {el}\n" if computing else ""
+    yv = "%dbl" if computing else "%x"
     text = f"""builtin.module {{
   func.func public @main() -> tensor<{cc}x{r}x{el}> {{
     %w = arith.constant dense<{dense}> : tensor<{r}x{cc}x{el}>
     %e = tensor.empty() : tensor<{cc}x{r}x{el}>
 {extra}    %t = linalg.generic {{indexing_maps = [affine_map<(d0, d1) -> (d1, d0)>, affine_map<(d0, d1) -> (d0, d1)>], iterator_types = ["parallel", "parallel"]}} ins(%w : tensor<{r}x{cc}x{el}>) outs(%e : tensor<{cc}x{r}x{el}>) {{
     ^bb0(%x: {el}, %y: {el}):
-      linalg.yield %x : {el}
+{body_ops}      linalg.yield {yv} : {el}
     }} -> tensor<{cc}x{r}x{el}>
     func.return %t : tensor<{cc}x{r}x{el}>
   }}
@@ -603,8 +607,12 @@ def run_transpose_case(case, res):
     else:
         for i in range(cc):
             for j in range(r):
-                if got[i * r + j] != vals[j][i]:
-                    bad = f"element [{i}][{j}] of the folded constant is {got[i * r + j]}, the source holds {vals[j][i]} at [{j}][{i}]"
+                want_v = vals[j][i]
+                if computing:
+                    bits = int(el[1:])
+                    want_v = ((2 * want_v + (1 << (bits - 1))) % (1 << bits)) - (1 << (bits - 1))
+                if got[i * r + j] != want_v:
+                    bad = f"element [{i}][{j}] of the folded constant is {got[i * r + j]}, the generic computes {want_v} there (source holds {vals[j][i]} at [{j}][{i}]{', body doubles it' if computing else ''})"
                     break
             if bad:
                 break
